@@ -180,34 +180,18 @@ func (engine *Engine) TakeSnapshot() error {
 	}
 
 	// Open manifest file
-	var mf *os.File
-	mf, err := os.Open(path.Join(dirname, "manifest.bin"))
+	manifest := new(Manifest)
+
+	md, err := os.ReadFile(path.Join(dirname, "manifest.bin"))
 	if err != nil {
-		if errors.Is(err, fs.ErrNotExist) {
-			// Create file if it does not exist
-			mf, err = os.Create(path.Join(dirname, "manifest.bin"))
-			if err != nil {
-				log.Println(err)
-				return err
-			}
-			firstSnapshot = true
-		} else {
+		if !errors.Is(err, fs.ErrNotExist) {
 			log.Println(err)
 			return err
 		}
+		// No manifest yet: this is the first snapshot. The manifest is only
+		// created once the snapshot it names has been written.
+		firstSnapshot = true
 	}
-
-	md, err := io.ReadAll(mf)
-	if err != nil {
-		log.Println(err)
-		return err
-	}
-	if err := mf.Close(); err != nil {
-		log.Println(err)
-		return err
-	}
-
-	manifest := new(Manifest)
 
 	if !firstSnapshot {
 		if err = json.Unmarshal(md, manifest); err != nil {
@@ -241,14 +225,41 @@ func (engine *Engine) TakeSnapshot() error {
 		return err
 	}
 
-	// os.Create will replace the old manifest file
-	mf, err = os.Create(path.Join(dirname, "manifest.bin"))
+	// Write the snapshot first and publish it in the manifest only once it is durable:
+	// a crash or a failure at any point before the final rename leaves the previous
+	// manifest, and therefore the previous snapshot, in place.
+
+	// Create snapshot directory
+	snapshotDir := path.Join(engine.directory, "snapshots", fmt.Sprintf("%d", msec))
+	if err := os.MkdirAll(snapshotDir, os.ModePerm); err != nil {
+		log.Println(err)
+		return err
+	}
+
+	// Create snapshot file
+	f, err := os.OpenFile(path.Join(snapshotDir, "state.bin"), os.O_WRONLY|os.O_CREATE|os.O_TRUNC, os.ModePerm)
 	if err != nil {
 		log.Println(err)
 		return err
 	}
 
-	// Write the latest manifest data
+	// Write state to file and make sure it has reached the disk.
+	if _, err = f.Write(out); err != nil {
+		log.Println(err)
+		_ = f.Close()
+		return err
+	}
+	if err = f.Sync(); err != nil {
+		log.Println(err)
+		_ = f.Close()
+		return err
+	}
+	if err = f.Close(); err != nil {
+		log.Println(err)
+		return err
+	}
+
+	// Write the latest manifest data to a temporary file...
 	manifest = &Manifest{
 		LatestSnapshotHash:         md5.Sum(out),
 		LatestSnapshotMilliseconds: msec,
@@ -258,42 +269,29 @@ func (engine *Engine) TakeSnapshot() error {
 		log.Println(err)
 		return err
 	}
-	if _, err = mf.Write(mo); err != nil {
-		log.Println(err)
-		return err
-	}
-	if err = mf.Sync(); err != nil {
-		log.Println(err)
-	}
-	if err = mf.Close(); err != nil {
-		log.Println(err)
-		return err
-	}
-
-	// Create snapshot directory
-	dirname = path.Join(engine.directory, "snapshots", fmt.Sprintf("%d", msec))
-	if err := os.MkdirAll(dirname, os.ModePerm); err != nil {
-		return err
-	}
-
-	// Create snapshot file
-	f, err := os.OpenFile(path.Join(dirname, "state.bin"), os.O_WRONLY|os.O_CREATE, os.ModePerm)
+	tmf, err := os.Create(path.Join(dirname, "manifest.bin.tmp"))
 	if err != nil {
 		log.Println(err)
 		return err
 	}
-	defer func() {
-		if err := f.Close(); err != nil {
-			log.Println(err)
-		}
-	}()
-
-	// Write state to file
-	if _, err = f.Write(out); err != nil {
+	if _, err = tmf.Write(mo); err != nil {
+		log.Println(err)
+		_ = tmf.Close()
 		return err
 	}
-	if err = f.Sync(); err != nil {
+	if err = tmf.Sync(); err != nil {
 		log.Println(err)
+		_ = tmf.Close()
+		return err
+	}
+	if err = tmf.Close(); err != nil {
+		log.Println(err)
+		return err
+	}
+	// ...and atomically replace the old manifest with it.
+	if err = os.Rename(path.Join(dirname, "manifest.bin.tmp"), path.Join(dirname, "manifest.bin")); err != nil {
+		log.Println(err)
+		return err
 	}
 
 	// Set the latest snapshot in unix milliseconds
